@@ -1,6 +1,7 @@
 #![allow(dead_code, unused_imports, deprecated, clippy::too_many_arguments)]
 mod acl;
 mod bulk;
+mod capsule;
 mod cards;
 mod checks;
 mod crash;
